@@ -33,6 +33,10 @@ def build(sizes=None, only=None, part=None):
         if part is not None and part != f"{sc},{ec}":
             continue
         obs += guarded(build_eer, sc, ec)
+    if part in (None, "root"):
+        # "FPR and FNR at its threshold, computed by the same object": Scores.cm's contract (C01's) re-discharged in this check
+        from props import c01
+        obs += guarded(c01.build_cm, None, "C06")
     return obs
 
 
@@ -167,6 +171,9 @@ def oracle(case):
     if tiefree:
         if abs(fpr - e) > 1 / (len(neg) + en) + 1e-9 or abs(fnr - e) > 1 / (len(pos) + ep) + 1e-9:
             return f"eer() = ({t!r}, {e!r}) but FPR(t)={fpr!r}, FNR(t)={fnr!r} are not within one sample {info}"
+        own_fpr, own_fnr = float(s.fpr(t)), float(s.fnr(t))          # "computed by the same object"
+        if abs(own_fpr - e) > 1 / (len(neg) + en) + 1e-9 or abs(own_fnr - e) > 1 / (len(pos) + ep) + 1e-9:
+            return f"eer() = ({t!r}, {e!r}) but the object's own FPR(t)={own_fpr!r}, FNR(t)={own_fnr!r} are not within one sample {info}"
         a_, b_ = 2.0, -3.0
         t2, e2 = sa.Scores(a_ * pos + b_, a_ * neg + b_, nb_easy_pos=ep, nb_easy_neg=en, score_class=sc, equal_class=ec).eer()
         if abs(e2 - e) > 1e-9 or abs(t2 - (a_ * t + b_)) > 1e-6 * (1 + float(np.ptp(np.concatenate([pos, neg])))):
